@@ -82,6 +82,7 @@ fn real_main() {
         "drive-usecheck" => p_usecheck::drive(&rest),
         "drive-shipped" => p_compile::drive_shipped(&rest),
         "replay-chialisp" => p_compile::replay_chialisp(&rest),
+        "replay-cse" => p_compile::replay_cse(&rest),
         "replay-compile" => p_compile::replay(&rest),
         "gen-programs" => p_compile::gen_programs(&rest),
         "drive-entry" => p_entry::drive(&rest),
